@@ -15,6 +15,7 @@ import (
 	"math/rand"
 	"os"
 	"runtime"
+	"sort"
 	"time"
 
 	"go4.org/jsonconfig"
@@ -46,10 +47,10 @@ func (l *loader) FindHandlerByType(string) (string, any, error) {
 	return "", nil, blobserver.ErrHandlerTypeNotFound
 }
 func (l *loader) AllHandlers() (map[string]string, map[string]any) { return nil, nil }
-func (l *loader) MyPrefix() string                                  { return "/replica/" }
-func (l *loader) BaseURL() string                                   { return "http://localhost:1" }
-func (l *loader) GetHandlerType(string) string                      { return "" }
-func (l *loader) GetHandler(p string) (any, error)                  { return l.m[p], nil }
+func (l *loader) MyPrefix() string                                 { return "/replica/" }
+func (l *loader) BaseURL() string                                  { return "http://localhost:1" }
+func (l *loader) GetHandlerType(string) string                     { return "" }
+func (l *loader) GetHandler(p string) (any, error)                 { return l.m[p], nil }
 func (l *loader) GetStorage(p string) (blobserver.Storage, error) {
 	if s, ok := l.m[p]; ok {
 		return s, nil
@@ -332,6 +333,35 @@ func runScn(s *Scn, u *univ.Universe, lg *gate.Log, idx int) error {
 		for _, after := range []int{0, 3, 6} {
 			emit(r.Do(drv.Op{Op: "enum", After: after, Limit: lim}))
 		}
+	}
+	if !bsMode {
+		// replica loss: every non-empty subset of the read replicas fails every Fetch with an I/O error
+		if !sort.IntsAreSorted(s.Rd) {
+			return fmt.Errorf("conformance: read set %v is not in index order (the model walks it in index order)", s.Rd)
+		}
+		for mask := 1; mask < 1<<len(s.Rd); mask++ {
+			var down []any
+			w.plan.Faults = nil
+			for k, i := range s.Rd {
+				if mask&(1<<k) != 0 {
+					down = append(down, i)
+					w.plan.Faults = append(w.plan.Faults, &gate.Fault{Layer: fmt.Sprintf("s%d", i), Call: "Fetch", N: 1, Kind: "error"})
+				}
+			}
+			for _, bl := range u.Blobs {
+				for _, f := range w.plan.Faults {
+					f.Rearm()
+				}
+				ev := r.Do(drv.Op{Op: "fetch", B: bl.Rank})
+				ev["op"] = "fetchf"
+				ev["down"] = down
+				if ev["res"] == "injected" {
+					ev["res"] = "failed"
+				}
+				emit(ev)
+			}
+		}
+		w.plan.Faults = nil
 	}
 	return nil
 }
